@@ -1,5 +1,5 @@
 (* C06 — property theorems only. *)
-From C06 Require Import Model Spec Proofs ProofsRef.
+From C06 Require Import Model Spec Proofs ProofsRef ProofsMap.
 
 (* (1) A function that is not destructive (list, cons, list*, cdr, nthcdr, member, last, butlast, subseq, copy-list,
    reverse, append, add, push, pop, remove/delete, mapcar, nconc as repaired) never changes any list other than
@@ -124,3 +124,43 @@ Theorem C06_repaired_examples :
   map (vcontents (run_ops (init 4) ex_subseq_copy)) [0; 1] = [[1; 2; 3]; [7; 3]]%Z.
 Proof. exact repaired_examples. Qed.
 Print Assumptions C06_repaired_examples.
+
+(* (9) A list constructor (list, list*, cons) called by name through a mapping function over two or more lists.
+   The mapping functions (mapcar, map, and the same idiom in mapc, mapcan, maplist, mapl, mapcon, map-into) refill
+   ONE argument buffer for every step and hand it to the constructor as its argument slice; the model contains
+   that buffer.  For all lists of integers of any lengths (the last one may hold lists of integers, which list*
+   and cons splice): (a) the n-th result is the list the constructor returns for the n-th elements
+   (spec_row: the elements, then the last element as element / dotted tail / spliced list); (b) the n-th result
+   lies alone on the n-th array allocated after the buffer, so no two results, no result and the buffer, no
+   result and an argument share an array; the arguments' inner lists are untouched. *)
+Theorem C06_map_rows_correct : forall F fc last h0 cols h buf rows,
+  map_supported F fc last = true -> mk_input fc last = (h0, cols) -> map_run F h0 cols = (h, buf, rows) ->
+  length rows = rows_count fc last /\ length h = length h0 + 1 + rows_count fc last /\
+  (forall a, a < length h0 -> oarr h a = oarr h0 a) /\
+  forall n, n < rows_count fc last -> exists s, nth n rows ONil = ORef s /\ s_arr s = length h0 + 1 + n /\ s_off s = 0 /\
+       canon (ocontents h s) = Some (spec_row F fc last n).
+Proof. exact map_rows_correct. Qed.
+Print Assumptions C06_map_rows_correct.
+
+(* (9c) "the list it returns is independent ... of the results of other calls": overwriting the car of one result
+   afterwards changes exactly that car; every other result and every list that was an element of an argument keep
+   their contents. *)
+Theorem C06_map_rows_independent : forall F fc last h0 cols h buf rows j v,
+  map_supported F fc last = true -> mk_input fc last = (h0, cols) -> map_run F h0 cols = (h, buf, rows) ->
+  let h' := row_setcar h rows j v in
+  (forall n s, n < rows_count fc last -> n <> j -> nth n rows ONil = ORef s -> ocontents h' s = ocontents h s) /\
+  (forall t, s_arr t < length h0 -> ocontents h' t = ocontents h t) /\
+  (forall s, j < rows_count fc last -> nth j rows ONil = ORef s -> ocontents h' s = set_nth 0 (OInt v) (ocontents h s)).
+Proof. exact map_rows_independent. Qed.
+Print Assumptions C06_map_rows_independent.
+
+(* (9d) non-vacuity: (mapcar 'list* '(1 2 3) '(4 5 6) '((7) nil (8 9))) and (setf (car (nth 1 rows)) 0) in the model *)
+Theorem C06_map_example :
+  map_supported FListStar (fst ex_map_input) (snd ex_map_input) = true /\
+  (let '(h0, cols) := mk_input (fst ex_map_input) (snd ex_map_input) in
+   let '(h, _, rows) := map_run FListStar h0 cols in
+   (map (row_view h) rows, map (row_view (row_setcar h rows 1 0)) rows)) =
+  ([Some ([1; 4; 7]%Z, false, 3, 0); Some ([2; 5]%Z, false, 4, 0); Some ([3; 6; 8; 9]%Z, false, 5, 0)],
+   [Some ([1; 4; 7]%Z, false, 3, 0); Some ([0; 5]%Z, false, 4, 0); Some ([3; 6; 8; 9]%Z, false, 5, 0)]).
+Proof. exact map_example. Qed.
+Print Assumptions C06_map_example.
